@@ -11,6 +11,8 @@ package main
 
 import (
 	"fmt"
+	goparser "go/parser"
+	gotoken "go/token"
 	"math/rand"
 	"os"
 	"path/filepath"
@@ -374,21 +376,33 @@ func corpusMode(src string) string {
 	return ""
 }
 
-var reImport = regexp.MustCompile(`(?m)^\s*(?:import\s+)?(?:[\w.]+\s+)?"([^"]+)"\s*(?://.*)?$`)
+var reImport = regexp.MustCompile(`"([^"\s]+)"`)
 
 // corpusImportsOK: every import of the file is one of the native packages of
 // the harness (so that both judges know the package).
 func corpusImportsOK(src string) bool {
-	// only look at the part of the file before the first func
-	head := src
-	if i := strings.Index(head, "\nfunc "); i >= 0 {
-		head = head[:i]
+	var paths []string
+	if f, err := goparser.ParseFile(gotoken.NewFileSet(), "main.go", src, goparser.ImportsOnly); err == nil {
+		for _, im := range f.Imports {
+			paths = append(paths, strings.Trim(im.Path.Value, "\"`"))
+		}
+	} else {
+		// a file with a syntax error: every quoted word on a line of the import section
+		head := src
+		if i := strings.Index(head, "\nfunc "); i >= 0 {
+			head = head[:i]
+		}
+		for _, l := range splitLines(head) {
+			t := strings.TrimSpace(l)
+			if strings.HasPrefix(t, "import") || strings.HasPrefix(t, "\"") || strings.HasPrefix(t, "_ \"") || strings.HasPrefix(t, ". \"") {
+				for _, m := range reImport.FindAllStringSubmatch(t, -1) {
+					paths = append(paths, m[1])
+				}
+			}
+		}
 	}
-	if !strings.Contains(head, "import") {
-		return true
-	}
-	for _, m := range reImport.FindAllStringSubmatch(head, -1) {
-		if _, ok := corpusPkgs[m[1]]; !ok {
+	for _, p := range paths {
+		if _, ok := corpusPkgs[p]; !ok {
 			return false
 		}
 	}
